@@ -18,7 +18,9 @@
 (*   per pair from 0..400 (and none), grown entry by entry; emitted at SimLens.         *)
 EXTENDS Voting, Json
 CONSTANTS Mode,      \* "enum" | "sim"
-          NQ, NT,    \* queries 101..100+NQ, tracks 1..NT
+          NQ, NT,    \* queries QBase+1..QBase+NQ, tracks 1..NT
+          QBase,     \* 100: query ids and track ids are disjoint (as in the trackers); 0: they overlap (a query may carry
+                     \* the number of a track: the engines must not confuse the two)
           PerPair,   \* at most this many distances per (query, track)
           WithNone,  \* TRUE: "no distance" entries are part of the alphabet
           Sym,       \* TRUE: reduce by track symmetry
@@ -26,7 +28,7 @@ CONSTANTS Mode,      \* "enum" | "sim"
                      \* (keeps the enumeration runs of one check disjoint)
 VARIABLES stage, c
 vars == <<stage, c>>
-Qs == 101..(100 + NQ)
+Qs == (QBase + 1)..(QBase + NQ)
 Ts == 1..NT
 Dists == {1, 3, 5}
 MaxDs == {0, 1, 3, 4, 6}        \* below all / on a distance / on / between / above all
@@ -37,7 +39,7 @@ Ent(q, t, bag) == [i \in DOMAIN bag |-> [q |-> q, t |-> t, am |-> 0, fd |-> bag[
 RECURSIVE FlatT(_, _, _)
 FlatT(q, row, t) == IF t > NT THEN <<>> ELSE Ent(q, t, row[t]) \o FlatT(q, row, t + 1)
 RECURSIVE FlatQ(_, _)
-FlatQ(rows, q) == IF q > 100 + NQ THEN <<>> ELSE FlatT(q, rows[q], 1) \o FlatQ(rows, q + 1)
+FlatQ(rows, q) == IF q > QBase + NQ THEN <<>> ELSE FlatT(q, rows[q], 1) \o FlatQ(rows, q + 1)
 
 Case(str, sc, maxd, minv, nmax) ==
   LET x == Ctx(str, maxd, minv) IN
@@ -57,13 +59,15 @@ EnumNext ==
           /\ Sym => \A t \in Ts : t > 1 => Code(row[t - 1]) <= Code(row[t])
           /\ c' = [row |-> row]
   \/ /\ stage = 1 /\ stage' = 2
-     /\ \E rest \in [Qs \ {101} -> [Ts -> Bags]], maxd \in MaxDs, minv \in 1..PerPair :
-          LET rows == [q \in Qs |-> IF q = 101 THEN c.row ELSE rest[q]]
-              str == FlatQ(rows, 101) IN
+     /\ \E rest \in [Qs \ {QBase + 1} -> [Ts -> Bags]], maxd \in MaxDs, minv \in 1..PerPair :
+          LET rows == [q \in Qs |-> IF q = QBase + 1 THEN c.row ELSE rest[q]]
+              str == FlatQ(rows, QBase + 1) IN
           /\ Only = "none" => \E i \in DOMAIN str : str[i].fd = -1
           /\ Only = "none_or_last" => \E i \in DOMAIN str : str[i].fd = -1 \/ str[i].t = NT
           /\ Tf(str, maxd, minv)
-          /\ Assert(Facts(str, maxd, minv, NT), <<"C17 violated by the specification", str, maxd, minv>>)
+          (* with overlapping ids "the query itself" and "the track with the query's number" are written alike, so the
+             declarative facts are asserted on the instances with disjoint ids only; the overlapping instance replays *)
+          /\ (IF QBase = 0 THEN TRUE ELSE Assert(Facts(str, maxd, minv, NT), <<"C17 violated by the specification", str, maxd, minv>>))
           /\ c' = Case(str, 8, maxd, minv, NT)
 
 (* ---- simulation: 6 x 6 pairs, <= 5 distances per pair, distances 0..400 or none; the case is emitted from the
